@@ -388,6 +388,7 @@ pub struct World {
     pending_app_reqs: Vec<(NodeAddress, RequestId, usize)>,
     recorded: Vec<(SocketAddr, Vec<u8>, &'static str, usize)>, // src, datagram, kind, maker peer
     nonces_seen: HashMap<(KeyT, ANonce), Vec<u8>>,
+    handshakes_per_request: BTreeMap<u64, u32>,
     idnonces_seen: BTreeSet<u64>,
     failures: Vec<(String, String)>,
     hist: Hist,
@@ -460,6 +461,7 @@ impl World {
             pending_app_reqs: vec![],
             recorded: vec![],
             nonces_seen: HashMap::new(),
+            handshakes_per_request: BTreeMap::new(),
             idnonces_seen: BTreeSet::new(),
             failures: vec![],
             hist: Hist::default(),
@@ -842,6 +844,13 @@ impl Runner {
                         }
                     } else {
                         self.w.nonces_seen.insert((k.clone(), *n), bytes.to_vec());
+                    }
+                    if let (APkt::Hs { .. }, AMsg::Req(rid, _), true) = (t, m, is_new) {
+                        let c = self.w.handshakes_per_request.entry(*rid).or_insert(0);
+                        *c += 1;
+                        if *c > 1 {
+                            self.w.fail("C03", "a request was answered with a second handshake packet".into());
+                        }
                     }
                     if let (AMsg::Req(rid, _), Some(pi)) = (m, pi) {
                         let (p, _) = wire_decode(&na.node_id, self.w.pid, bytes).unwrap();
@@ -1310,8 +1319,22 @@ impl Runner {
             self.w.cds.push(aad);
         }
         let bytes = wire_encode(&p, self.w.pid, &self.w.local_id);
-        let src = if rng.chance(1, 10) { self.w.peers[(pi + 1) % self.w.peers.len()].addr } else { self.w.peers[pi].addr };
+        let right = self.w.peers[pi].addr;
+        let src = match rng.below(12) {
+            0 => self.w.peers[(pi + 1) % self.w.peers.len()].addr,
+            // the same IP address, another port
+            1 | 2 => SocketAddr::new(right.ip(), right.port() + 1 + rng.below(3) as u16),
+            _ => right,
+        };
+        let n0 = self.steps.len();
         self.inject(src, bytes, "whoareyou", pi, false, None).await;
+        if src != right {
+            // C03: a WHOAREYOU is acted on only if it comes from the address the request was sent to
+            let acted = self.steps[n0..].iter().any(|s| s.wires.iter().any(|(_, p)| matches!(p, APkt::Hs { .. })) || s.outs.iter().any(|o| matches!(o, AOut::Established(..) | AOut::RequestFailed(..))));
+            if acted {
+                self.w.failures.push(("C03".into(), "a WHOAREYOU from another address than the one the request was sent to was acted on".into()));
+            }
+        }
     }
 
     async fn net_replay(&mut self, rng: &mut Rng, idx: usize, other_src: bool) {
